@@ -399,7 +399,7 @@ func Classes(n int, keep func(*G) bool) map[Code]bool {
 }
 
 // A000088: number of graphs on n unlabelled nodes.
-var A000088 = []int{1, 1, 2, 4, 11, 34, 156, 1044, 12346, 274668}
+var A000088 = []int{1, 1, 2, 4, 11, 34, 156, 1044, 12346, 274668, 12005168}
 
 // InducedFree returns the hereditary predicate "contains no induced copy of h".
 func InducedFree(h *G) func(g *G) bool {
